@@ -29,6 +29,7 @@ fn pool(file: usize) -> Vec<&'static str> {
             "",
             "PROGRAM Main\nVAR x : DINT; x : INT; END_VAR\nx := DINT#1;\nEND_PROGRAM\nPROGRAM Main\nEND_PROGRAM\n",
             "PROGRAM Main\nVAR r : REAL; b : BOOL; p : Point; END_VAR\nr := Helper(a := r);\nb := Other();\np.y := DINT#2;\nEND_PROGRAM\n",
+            "PROGRAM Main\nVAR x : DINT; y : INT; c : Counter; i : ItfA; END_VAR\nc(enable := TRUE);\nx := c.count;\ny := c.speed;\ny := c.Go();\ni := c;\nEND_PROGRAM\n",
         ],
         2 => vec![
             "FUNCTION_BLOCK Counter\nVAR_INPUT enable : BOOL; END_VAR\nVAR_OUTPUT count : DINT; END_VAR\nIF enable THEN count := count + DINT#1; END_IF;\nEND_FUNCTION_BLOCK\n",
@@ -37,6 +38,10 @@ fn pool(file: usize) -> Vec<&'static str> {
             "FUNCTION_BLOCK Counter\nVAR_INPUT enable BOOL; END_VAR\ncount := ;\n",
             "",
             "FUNCTION_BLOCK Counter\nVAR_OUTPUT count : DINT; END_VAR\nEND_FUNCTION_BLOCK\nFUNCTION Helper : DINT\nHelper := DINT#0;\nEND_FUNCTION\n",
+            // inheritance: the two texts differ only in the EXTENDS / IMPLEMENTS target (same length, no range moves)
+            "FUNCTION_BLOCK BaseA\nVAR_OUTPUT count : DINT; speed : INT; END_VAR\nEND_FUNCTION_BLOCK\nFUNCTION_BLOCK BaseB\nVAR_OUTPUT count : INT; END_VAR\nEND_FUNCTION_BLOCK\nINTERFACE ItfA\nMETHOD Go : INT\nEND_METHOD\nEND_INTERFACE\nINTERFACE ItfB\nMETHOD Stop : INT\nEND_METHOD\nEND_INTERFACE\nFUNCTION_BLOCK Counter EXTENDS BaseA IMPLEMENTS ItfA\nVAR_INPUT enable : BOOL; END_VAR\nMETHOD PUBLIC Go : INT\nGo := INT#1;\nEND_METHOD\nEND_FUNCTION_BLOCK\n",
+            "FUNCTION_BLOCK BaseA\nVAR_OUTPUT count : DINT; speed : INT; END_VAR\nEND_FUNCTION_BLOCK\nFUNCTION_BLOCK BaseB\nVAR_OUTPUT count : INT; END_VAR\nEND_FUNCTION_BLOCK\nINTERFACE ItfA\nMETHOD Go : INT\nEND_METHOD\nEND_INTERFACE\nINTERFACE ItfB\nMETHOD Stop : INT\nEND_METHOD\nEND_INTERFACE\nFUNCTION_BLOCK Counter EXTENDS BaseB IMPLEMENTS ItfA\nVAR_INPUT enable : BOOL; END_VAR\nMETHOD PUBLIC Go : INT\nGo := INT#1;\nEND_METHOD\nEND_FUNCTION_BLOCK\n",
+            "FUNCTION_BLOCK BaseA\nVAR_OUTPUT count : DINT; speed : INT; END_VAR\nEND_FUNCTION_BLOCK\nFUNCTION_BLOCK BaseB\nVAR_OUTPUT count : INT; END_VAR\nEND_FUNCTION_BLOCK\nINTERFACE ItfA\nMETHOD Go : INT\nEND_METHOD\nEND_INTERFACE\nINTERFACE ItfB\nMETHOD Stop : INT\nEND_METHOD\nEND_INTERFACE\nFUNCTION_BLOCK Counter EXTENDS BaseA IMPLEMENTS ItfB\nVAR_INPUT enable : BOOL; END_VAR\nMETHOD PUBLIC Go : INT\nGo := INT#1;\nEND_METHOD\nEND_FUNCTION_BLOCK\n",
         ],
         3 => vec![
             "TYPE Point : STRUCT x : INT; y : DINT; END_STRUCT END_TYPE\nTYPE Color : (Red, Green, Blue); END_TYPE\n",
@@ -341,8 +346,9 @@ fn gen_ops(rng: &mut Rng) -> Vec<Op> {
     for _ in 0..n {
         let f = rng.usize(nfiles);
         ops.push(match rng.below(10) {
-            0 | 1 | 2 => Op::Set(f, rng.usize(8), if rng.chance(1, 4) { rng.next() | 1 } else { 0 }),
+            0 | 1 | 2 => Op::Set(f, rng.usize(12), if rng.chance(1, 4) { rng.next() | 1 } else { 0 }),
             3 => Op::Remove(f),
+            4 if rng.bool() && nfiles > 2 => Op::Set(if rng.chance(1, 4) { 1 } else { 2 }, 6 + rng.usize(3), 0), // the inheritance variants (file 1: index 7 uses inherited members)
             4 => Op::Set(f, 0, 0),
             _ => Op::Query(f, rng.below(4) as u8),
         });
